@@ -619,13 +619,16 @@ theorem C08_nomore_exhausted (f : Nat) (t : ST) (es : Ents) (r : ST × Ents × M
     (hna : r.2.2 ≠ .all) (hnn : r.2.2 ≠ .newchoice) : Exh r.1 :=
   (nomore_exh f).1 t es r h hna hnn
 
-/-- … hence a refusal by the retry loop of `ComplexList::matches` comes from a `tryNext` that left every steppable OrList
-at LISTEND: with `C08_odometer` (every NEWCHOICE/MATCHALL strictly increases the mixed-radix number of the choices) the
-loop walks upwards through the choice vectors and stops refusing only at the end of the range. -/
+/-- … hence a refusal by the retry loop of `ComplexList::matches` is preceded by exactly this: the loop, started on
+`head`/`es`, passed through states (`RetryReach`: each step a `tryNext` that answered NEWCHOICE, or MATCHALL with
+`hitMultNodes` failing) to a state `head'`/`es'` on which `tryNext` answered NOMORE and left every steppable OrList at
+LISTEND.  With `C08_odometer` (every NEWCHOICE/MATCHALL strictly increases the mixed-radix number of the choices) the loop
+walks upwards through the choice vectors and refuses only at the end of the range.  (Strengthened in place: the first
+version of this theorem did not tie the exhausted state to the loop's own run.) -/
 theorem C08_refusal_exhausted (combo : Bool) (f : Nat) (head : ST) (es : Ents) (h : retry f combo head es = .ok false) :
-    ∃ (g : Nat) (h0 : ST) (e0 : Ents) (r : ST × Ents × MT), tryNext g h0 e0 = .ok r ∧ r.2.2 ≠ .all ∧ r.2.2 ≠ .newchoice ∧
-      Exh r.1 :=
-  retry_false_exh combo f head es h
+    ∃ (head' : ST) (es' : Ents) (g : Nat) (r : ST × Ents × MT), RetryReach combo head es head' es' ∧
+      tryNext g head' es' = .ok r ∧ r.2.2 ≠ .all ∧ r.2.2 ≠ .newchoice ∧ Exh r.1 :=
+  retry_false_last combo f head es h
 
 /-- **… and no alternative that counts is skipped** (partial: the alternative is a finished alive list with distinct
 leaves none of which is held elsewhere, `PA`; nothing is held below the OrList — the situation after `unmarkAll` of the
